@@ -7,8 +7,16 @@ below (a byte span of a text, converted to LSP positions with that text's line t
 against the same text, is the same span); the weight of the check is the correspondence that
 compares every range of every server response with the ide-level span converted against the named
 document (`./check C09`), on workspaces whose files have different line structure.
+
+Second part: the conversion layer of the server itself is modelled (`TgModel/Lsp.lean`: `to_proto.rs` and, from
+`server.rs`, which line table each handler converts with).  Per handler `K`, `K_denotes`: ide-level ranges that are
+valid in the file they name are sent as LSP ranges that name that file and, read back against ITS text, give the
+same byte span; `server_locations_denote_all` composes this with the handlers of the Ide model and C17's range
+validity, for every input.  The model is compared with the server through the driver command `lspmap`.
 -/
 import TgModel.Props.C10
+import TgModel.Props.C17
+import TgModel.Lemmas.LspLemmas
 
 namespace Tg.C09
 open LineIndex
@@ -38,5 +46,216 @@ theorem wrong_text_differs :
     let other := ['c', 'l', 'a', 's', 's', ' ', 'A', ' ', ':', ' ', 'B', ';']  -- the requesting file
     toPos named 8 0 0 = some (2, 6) ∧ toPos other 8 0 0 = some (0, 8) := by
   decide
+
+/-! ### the conversion layer of the server (`TgModel/Lsp.lean`)
+
+`Lsp.Denotes text R a b`: a client that reads the two positions of the LSP range `R` against `text`
+(`from_proto::position` = `LineIndex.fromPos`) gets the byte offsets `a` and `b`.  `snap.text f` is the text
+the line table of file `f` is computed from, `snap.path f` the path its URI is made from.  In every theorem
+below the hypothesis is C17's validity of the ide-level ranges IN THE FILE THEY NAME, the conclusion is that the
+LSP answer names that file and denotes the same span in that file's text.  `Lsp.All₂ R xs ys`: the lists have the
+same length and `R` holds at every index (`All₂.get`, `All₂.right`), so "every range of the LSP answer" is
+covered. -/
+
+open Tg.Ide Tg.Ide.Handlers Tg.Lsp
+
+/-- **definition**: the location names the file of the ide-level location and denotes its span in THAT file -/
+theorem definition_denotes (snap : Snapshot) (l : SymbolMap.Loc)
+    (h : ValidRange (snap.text l.file) l.start l.stop) :
+    ∃ L, definition snap (some l) = some L ∧ L.uri = snap.path l.file ∧
+      Denotes (snap.text l.file) L.range l.start l.stop :=
+  ⟨_, rfl, rfl, range_denotes h⟩
+
+/-- **references**: every location, in the coordinates of the file it lies in -/
+theorem references_denotes (snap : Snapshot) (ls : List SymbolMap.Loc)
+    (h : ∀ l ∈ ls, ValidRange (snap.text l.file) l.start l.stop) :
+    ∃ Ls, references snap (some ls) = some Ls ∧
+      All₂ (fun l L => L.uri = snap.path l.file ∧ Denotes (snap.text l.file) L.range l.start l.stop) ls Ls :=
+  ⟨_, rfl, All₂.of_map _ ls fun l hl => ⟨rfl, range_denotes (h l hl)⟩⟩
+
+/-- **document symbols**: `range` and `selection_range` of every symbol and of every (transitive) child denote the
+symbol's span in the requested document -/
+theorem documentSymbol_denotes (snap : Snapshot) (file : Nat) (ss : List Handlers.DocumentSymbol)
+    (h : ∀ d ∈ ss, DocSymOK (fun rg => ValidRange (snap.text file) rg.1 rg.2) d) :
+    ∃ Ss, documentSymbols snap file (some ss) = some Ss ∧ SymsDenote (snap.text file) ss Ss :=
+  ⟨_, rfl, documentSymbolL_denotes h⟩
+
+/-- **folding ranges**: only lines are sent; they are the lines of the two ends of the span in the requested
+document (`LinesDenote`: the number of line starts at or before the offset) -/
+theorem foldingRange_denotes (snap : Snapshot) (file : Nat) (rs : List (Nat × Nat))
+    (h : ∀ r ∈ rs, ValidRange (snap.text file) r.1 r.2) :
+    ∃ Fs, foldingRanges snap file (some rs) = some Fs ∧
+      All₂ (fun r F => LinesDenote (snap.text file) F r.1 r.2) rs Fs :=
+  ⟨_, rfl, All₂.of_map _ rs fun r hr => Lsp.foldingRange_denotes (h r hr)⟩
+
+/-- **document links**: the range denotes the span in the requested document, the target is the path of the
+target file -/
+theorem documentLink_denotes (snap : Snapshot) (file : Nat) (ls : List ((Nat × Nat) × Nat))
+    (h : ∀ e ∈ ls, ValidRange (snap.text file) e.1.1 e.1.2) :
+    ∃ Ds, documentLinks snap file (some ls) = some Ds ∧
+      All₂ (fun e D => D.target = snap.path e.2 ∧ Denotes (snap.text file) D.range e.1.1 e.1.2) ls Ds :=
+  ⟨_, rfl, All₂.of_map _ ls fun e he => ⟨rfl, range_denotes (h e he)⟩⟩
+
+/-- **inlay hints**: the position denotes the hint's offset in the requested document -/
+theorem inlayHint_denotes (snap : Snapshot) (file : Nat) (hs : List Handlers.InlayHint)
+    (h : ∀ x ∈ hs, Boundary (snap.text file) x.position) :
+    ∃ Hs, inlayHints snap file (some hs) = some Hs ∧
+      All₂ (fun x H => H.label = x.label ∧ PosDenotes (snap.text file) H.position x.position) hs Hs :=
+  ⟨_, rfl, All₂.of_map _ hs fun x hx => ⟨rfl, position_denotes (h x hx)⟩⟩
+
+/-- **published diagnostics**: one notification per group, for the path of the group's file; every range denotes
+the diagnostic's span in that file (the file the diagnostic names) -/
+theorem diagnostics_denotes (snap : Snapshot) (ans : List (Nat × List Ide.Diagnostic))
+    (h : ∀ e ∈ ans, ∀ d ∈ e.2, d.location.file = e.1 ∧
+      ValidRange (snap.text d.location.file) d.location.start d.location.stop) :
+    All₂ (fun e E => E.1 = snap.path e.1 ∧
+        All₂ (fun d D => d.location.file = e.1 ∧ D.message = d.message ∧
+          Denotes (snap.text d.location.file) D.range d.location.start d.location.stop) e.2 E.2)
+      ans (publishDiagnostics snap ans) := by
+  refine All₂.of_map _ ans fun e he => ?_
+  obtain ⟨f, ds⟩ := e
+  refine ⟨rfl, All₂.of_map _ ds fun d hd => ?_⟩
+  obtain ⟨hf, hv⟩ := h _ he d hd
+  simp only at hf
+  refine ⟨hf, rfl, ?_⟩
+  rw [hf] at hv ⊢
+  exact range_denotes hv
+
+/-- `position` never falls back: it is the position of the offset rounded down to a character boundary of the
+text (what `LineIndex::pos_to_col` does with an offset inside a character or past the end) -/
+theorem position_total (text : List Char) (o : Nat) :
+    ∃ l c, toPos text (floorB text o 0) 0 0 = some (l, c) ∧ position text o = ⟨l, c⟩ :=
+  position_eq text o
+
+/-! ### composed with the handlers of the Ide model -/
+
+/-- **every location the server sends denotes the span the analysis computed, in the document it names**: for
+every input the workspace is built, every handler of the Ide model answers, and the LSP answer the conversion
+layer makes of it (with the snapshot of the workspace: paths, and the texts of the files) names the file of each
+ide-level location and denotes its span in the text of that file. -/
+theorem server_locations_denote_all (vfs : List (String × String)) (rootPath : String) (includeDir : Option String) :
+    ∃ ws, buildWorkspace vfs rootPath includeDir = .ok ws ∧
+      -- definition
+      (∀ file pos, ∃ res, gotoDefinitionExec (Analysis.new ws) file pos = .ok res ∧
+        ∀ l, res = some l → l.file < ws.files.size ∧
+          ∃ L, definition (snapOf ws) res = some L ∧ L.uri = ws.pathStr l.file ∧
+            Denotes (ws.tree l.file).chars L.range l.start l.stop) ∧
+      -- references
+      (∀ file pos, ∃ res, referencesExec (Analysis.new ws) file pos = .ok res ∧
+        ∀ ls, res = some ls → ∃ Ls, references (snapOf ws) res = some Ls ∧
+          All₂ (fun l L => l.file < ws.files.size ∧ L.uri = ws.pathStr l.file ∧
+            Denotes (ws.tree l.file).chars L.range l.start l.stop) ls Ls) ∧
+      -- document symbols
+      (∀ file, ∃ res, documentSymbolExec (Analysis.new ws) file = .ok res ∧
+        ∀ ss, res = some ss → ∃ Ss, documentSymbols (snapOf ws) file res = some Ss ∧
+          SymsDenote (ws.tree file).chars ss Ss) ∧
+      -- folding ranges
+      (∀ file, file < ws.files.size → ∃ rs, foldingRangeExec (Analysis.new ws) file = .ok (some rs) ∧
+        ∃ Fs, foldingRanges (snapOf ws) file (some rs) = some Fs ∧
+          All₂ (fun r F => LinesDenote (ws.tree file).chars F r.1 r.2) rs Fs) ∧
+      -- document links
+      (∀ file, file < ws.files.size → ∃ ls, documentLinkExec (Analysis.new ws) file = .ok (some ls) ∧
+        ∃ Ds, documentLinks (snapOf ws) file (some ls) = some Ds ∧
+          All₂ (fun e D => e.2 < ws.files.size ∧ D.target = ws.pathStr e.2 ∧
+            Denotes (ws.tree file).chars D.range e.1.1 e.1.2) ls Ds) ∧
+      -- inlay hints
+      (∀ file a b, ∃ res, inlayHintExec (Analysis.new ws) file a b = .ok res ∧
+        ∀ hs, res = some hs → ∃ Hs, inlayHints (snapOf ws) file res = some Hs ∧
+          All₂ (fun x H => H.label = x.label ∧ PosDenotes (ws.tree file).chars H.position x.position) hs Hs) ∧
+      -- published diagnostics
+      (∃ res, diagnosticsExec (Analysis.new ws) = .ok res ∧
+        All₂ (fun e E => e.1 < ws.files.size ∧ E.1 = ws.pathStr e.1 ∧
+          All₂ (fun d D => d.location.file = e.1 ∧ D.message = d.message ∧
+            Denotes (ws.tree d.location.file).chars D.range d.location.start d.location.stop) e.2 E.2)
+          res (publishDiagnostics (snapOf ws) res)) := by
+  obtain ⟨ws, hb⟩ := C03.buildWorkspace_total vfs rootPath includeDir
+  have hr := C03.built_ready hb
+  refine ⟨ws, hb, ?_, ?_, ?_, ?_, ?_, ?_, ?_⟩
+  · intro file pos
+    obtain ⟨res, hres, hv⟩ := C17.gotoDefinition_ranges_valid hr file pos
+    refine ⟨res, hres, fun l hl => ?_⟩
+    subst hl
+    exact ⟨(hv l rfl).1, definition_denotes (snapOf ws) l (hv l rfl).2⟩
+  · intro file pos
+    obtain ⟨res, hres, hv⟩ := C17.references_ranges_valid hr file pos
+    refine ⟨res, hres, fun ls hls => ?_⟩
+    subst hls
+    exact ⟨_, rfl, All₂.of_map _ ls fun l hl => ⟨(hv ls rfl l hl).1, rfl, range_denotes (hv ls rfl l hl).2⟩⟩
+  · intro file
+    obtain ⟨res, hres, hv⟩ := C17.documentSymbol_ranges_valid hr file
+    refine ⟨res, hres, fun ss hss => ?_⟩
+    subst hss
+    refine documentSymbol_denotes (snapOf ws) file ss fun d hd => ?_
+    exact Lsp.DocSymOK.imp (fun rg h => h.2) (hv ss rfl d hd)
+  · intro file hf
+    obtain ⟨rs, hres, hv⟩ := C17.foldingRange_ranges_valid vfs rootPath includeDir ws hb file hf
+    exact ⟨rs, hres, foldingRange_denotes (snapOf ws) file rs fun r hrg => (hv r hrg).2⟩
+  · intro file hf
+    obtain ⟨ls, hres, hv⟩ := C17.documentLink_ranges_valid vfs rootPath includeDir ws hb file hf
+    exact ⟨ls, hres, _, rfl, All₂.of_map _ ls fun e he => ⟨(hv e he).1, rfl, range_denotes (hv e he).2.2⟩⟩
+  · intro file a b
+    obtain ⟨res, hres, hv⟩ := C17.inlayHint_positions_valid hr file a b
+    refine ⟨res, hres, fun hs hhs => ?_⟩
+    subst hhs
+    exact inlayHint_denotes (snapOf ws) file hs (hv hs rfl)
+  · obtain ⟨res, hres, hv⟩ := C17.diagnostics_ranges_valid hr
+    refine ⟨res, hres, All₂.of_map _ res fun e he => ?_⟩
+    obtain ⟨f, ds⟩ := e
+    refine ⟨(hv _ he).1, rfl, All₂.of_map _ ds fun d hd => ?_⟩
+    obtain ⟨hf, hl⟩ := (hv _ he).2 d hd
+    simp only at hf
+    refine ⟨hf, rfl, ?_⟩
+    have := range_denotes hl.2
+    rw [hf] at this ⊢
+    exact this
+
+/-! ### non-vacuity: two files with different line structure, a non-ASCII character before the span -/
+
+/-- `/a.td` = `def d : B;` (one line), `/b.td` = `// é`, an empty line, `class B;` -/
+def exSnap : Snapshot :=
+  { path := fun f => if f = 0 then "/a.td" else "/b.td"
+    text := fun f => if f = 0 then ['d', 'e', 'f', ' ', 'd', ' ', ':', ' ', 'B', ';']
+      else ['/', '/', ' ', 'é', '\n', '\n', 'c', 'l', 'a', 's', 's', ' ', 'B', ';'] }
+
+/-- the definition of `B` (bytes 13..14 of `/b.td`; `é` takes two bytes and one UTF-16 unit) is sent as line 2,
+characters 6..7 of `/b.td` -/
+example : definition exSnap (some ⟨1, 13, 14⟩) = some ⟨"/b.td", ⟨⟨2, 6⟩, ⟨2, 7⟩⟩⟩ := by decide
+
+/-- read against `/b.td` the position gives the offset back, against the requesting file `/a.td` it does not -/
+example : offsetOf (exSnap.text 1) ⟨2, 6⟩ = 13 ∧ offsetOf (exSnap.text 0) ⟨2, 6⟩ = 10 := by decide
+
+/-- the hypothesis of `definition_denotes` holds of this location -/
+example : ValidRange (exSnap.text 1) 13 14 :=
+  ⟨by omega, ['/', '/', ' ', 'é', '\n', '\n', 'c', 'l', 'a', 's', 's', ' '], ['B'], [';'], by decide, by decide,
+    by decide⟩
+
+example : references exSnap (some [⟨0, 8, 9⟩, ⟨1, 13, 14⟩]) =
+    some [⟨"/a.td", ⟨⟨0, 8⟩, ⟨0, 9⟩⟩⟩, ⟨"/b.td", ⟨⟨2, 6⟩, ⟨2, 7⟩⟩⟩] := by decide
+
+example : foldingRanges exSnap 1 (some [(7, 15)]) = some [⟨2, 2⟩] ∧
+    publishDiagnostics exSnap [(1, [⟨⟨1, 13, 14⟩, "m"⟩])] = [("/b.td", [⟨⟨⟨2, 6⟩, ⟨2, 7⟩⟩, "m"⟩])] ∧
+    documentLinks exSnap 0 (some [((4, 5), 1)]) = some [⟨⟨⟨0, 4⟩, ⟨0, 5⟩⟩, "/b.td"⟩] ∧
+    inlayHints exSnap 1 (some [⟨5, "x", .fieldLet⟩]) = some [⟨⟨0, 4⟩, "x", true, false⟩] := by decide
+
+/-- an offset inside `é` (byte 4 of `/b.td`) is rounded down to its start, an offset past the end is clamped -/
+example : position (exSnap.text 1) 4 = ⟨0, 3⟩ ∧ position (exSnap.text 1) 99 = ⟨2, 8⟩ := by decide
+
+/-- the texts of the workspace below as a snapshot -/
+def exDiagSnap : Snapshot :=
+  { path := fun f => if f = 0 then "/a.td" else "/b.td"
+    text := fun f => if f = 0 then "include \"b.td\"\n".toList else "// é\n\ninclude \"n\"\n".toList }
+
+/-- end to end, with the ide-level answer computed by the Ide model: `/a.td` includes `/b.td`, whose third line
+`include "n"` (bytes 7..19 with its line end, after the two-byte `é`) cannot be resolved; the diagnostic is
+published for `/b.td` as line 2, character 0 to line 3, character 0 — with the table of `/a.td` it would have
+been line 0, character 7 to line 1, character 0 -/
+example : (match buildWorkspace [("/a.td", "include \"b.td\"\n"), ("/b.td", "// é\n\ninclude \"n\"\n")]
+      "/a.td" none with
+    | .ok ws => (match diagnosticsExec (Analysis.new ws) with
+      | .ok res => (res.map (·.1), (publishDiagnostics exDiagSnap res).map fun e => e.2.map (·.range))
+      | .error _ => ([], []))
+    | .error _ => ([], [])) = ([0, 1], [[], [⟨⟨2, 0⟩, ⟨3, 0⟩⟩]]) := by decide +kernel
+
+example : range (exDiagSnap.text 0) 7 19 = ⟨⟨0, 7⟩, ⟨1, 0⟩⟩ := by decide +kernel
 
 end Tg.C09
